@@ -42,6 +42,12 @@ CAT = {
              ('w', 3, (1.5, 0.0, 1.0), (3.0, 0.0, 1.0), 0.06)], False),
     'G20': ([('w', 3, (0.0, 0.0, 1.0), (1.5, 0.0, 1.0), 0.002),
              ('w', 3, (1.5, 0.0, 1.0), (3.0, 0.0, 1.0), 0.06)], True),
+    # a wire tapered from its first end (first and last segment differ) whose SECOND end is met by the second end of a later wire
+    'G21': ([('w', 4, (0.0, 0.0, 0.0), (1.5, 0.3, 0.2), 0.002, 1),
+             ('w', 4, (3.3, 1.9, 1.6), (1.5, 0.3, 0.2), 0.004)], False),
+    # ... and whose FIRST end is met by the first end of a later wire
+    'G22': ([('w', 4, (0.0, 0.0, 0.0), (1.5, 0.3, 0.2), 0.002, 2),
+             ('w', 4, (0.0, 0.0, 0.0), (-1.2, 1.9, 1.4), 0.004)], False),
     'G16': ([('w', 4, (0.2, 0.1, 2.0), (0.0, 0.0, 0.0), 0.002),
              ('w', 2, (0.2, 0.1, 2.0), (1.1, 0.4, 2.1), 0.003)], True),
 }
